@@ -106,6 +106,14 @@ var c09Forms = []string{
 	"(defmacro pass (&rest forms) (car forms)) (defmacro srt (x) (stable-sort < x) (list 'quote x)) (macroexpand '(pass (srt (3 1 2)) (srt (6 5 4))))",
 	"(defmacro pass (form) (list 'progn form)) (defmacro smallest (&rest xs) (car (stable-sort < xs))) (list (macroexpand '(pass (smallest 3 1 2))) (pass (smallest 3 1 2)))",
 	"(defmacro twice (form) (list 'list form form)) (defmacro smallest (&rest xs) (car (stable-sort < xs))) (list (macroexpand '(twice (smallest 3 1 2))) (twice (smallest 9 8 7)))",
+	// quasiquote templates that are nothing but ONE splice of a program literal (or a view of one, or
+	// a macro's unevaluated argument list): the list they build is new storage
+	"(let ((xs '(30 10 20))) (list (car xs) (stable-sort < (quasiquote ((unquote-splicing xs))))))",
+	"(stable-sort < (quasiquote ((unquote-splicing (cdr '(9 3 1 2))))))",
+	"(defmacro m (&rest xs) (list 'quote (stable-sort < (quasiquote ((unquote-splicing xs)))))) (list (m 3 1 2) (m 3 1 2))",
+	"(let ((v (slice 'vector (quasiquote ((unquote-splicing '(3 1 2)))) 0 3))) (stable-sort < v) v)",
+	"(let ((xs '(3 1 2))) (stable-sort < (quasiquote ((unquote-splicing xs) (unquote-splicing xs)))) (stable-sort < (quasiquote (0 (unquote-splicing xs)))))",
+	"(defun f (xs) (stable-sort < (quasiquote ((unquote-splicing xs))))) (list (f '(3 1 2)) (f '(6 5 4)))",
 }
 
 // Evaluating a parsed program never changes it: no write reaches a node of the sealed tree, every
